@@ -704,7 +704,7 @@ def key_of(rec, fails):
             q += " thr=%s signs=%s" % (rec["thr"], "negative" if any(s["sign"] < 0 for s in rec["srcs"])
                                        else "positive")
         if "independent_render" in fails and "off_image_contributes_nothing" not in fails:
-            q += " shape=%s proj=%s" % (rec["shape"], rec["proj"])
+            q += " shape=%s" % rec["shape"]
         return "run op=%s fails=%s%s" % (rec["op"], f, q)
     return "%s fails=%s" % (k, f)
 
